@@ -4945,10 +4945,39 @@ class PyCdlib:
         # Above we checked to make sure we got at least one old path, so we
         # don't need to worry about the else situation here.
 
-        num_bytes_to_add = self._add_hard_link_to_inode(old_rec.inode,
-                                                        old_rec.get_data_length(),
-                                                        fmode, boot_catalog_old,
-                                                        **kwargs)
+        if isinstance(old_rec, dr.DirectoryRecord) and old_rec.data_continuation is not None:
+            # A very large file is made up of several Directory Records that
+            # directly follow each other, each with an Inode of its own for
+            # its part of the data.  The link has to cover all of them, just
+            # like when such a file is added.
+            num_bytes_to_add = 0
+            if kwargs.get('udf_new_path') is not None:
+                # A UDF File Entry describes the whole file, and is linked to
+                # the Inode of the first part.
+                length = 0
+                part = old_rec  # type: Optional[dr.DirectoryRecord]
+                while part is not None:
+                    length += part.get_data_length()
+                    part = part.data_continuation
+                num_bytes_to_add += self._add_hard_link_to_inode(old_rec.inode,
+                                                                 length, fmode,
+                                                                 boot_catalog_old,
+                                                                 **kwargs)
+            else:
+                part = old_rec
+                while part is not None:
+                    num_bytes_to_add += self._add_hard_link_to_inode(part.inode,
+                                                                     part.get_data_length(),
+                                                                     fmode,
+                                                                     boot_catalog_old,
+                                                                     continuation=part is not old_rec,
+                                                                     **kwargs)
+                    part = part.data_continuation
+        else:
+            num_bytes_to_add = self._add_hard_link_to_inode(old_rec.inode,
+                                                            old_rec.get_data_length(),
+                                                            fmode, boot_catalog_old,
+                                                            **kwargs)
 
         self._finish_add(0, num_bytes_to_add)
 
